@@ -159,6 +159,16 @@ def object_cases():
                 if orig and entry.endswith("_req"):
                     continue        # a request while another is in flight is outside the builders' precondition (C17)
                 yield (s.value, orig, entry, "0", "0")
+                # the same entry points for every kind of order the constructor accepts (OrdType member / its plain
+                # string, other sides): the transition function does not look at them, so neither may the object
+                for j, ot in enumerate(ORD_TYPES()):
+                    yield (s.value, orig, entry, "0", "0", ot, ("1", "2", "5")[j % 3])
+
+
+def ORD_TYPES():
+    from asyncfix.protocol.common import FOrdType
+
+    return list(FOrdType) + [m.value for m in FOrdType]
 
 
 def object_call(c):
@@ -168,8 +178,11 @@ def object_call(c):
     from asyncfix.protocol.common import FOrdStatus
     from asyncfix.protocol.order_single import FIXNewOrderSingle
 
-    s, orig, entry, e, r = c
-    o = FIXNewOrderSingle("root", "TICK", "1", 10.0, 5.0)
+    s, orig, entry, e, r = c[:5]
+    if len(c) > 5:
+        o = FIXNewOrderSingle("root", "TICK", c[6], 10.0, 5.0, ord_type=c[5])
+    else:
+        o = FIXNewOrderSingle("root", "TICK", "1", 10.0, 5.0)
     o.status = FOrdStatus(s)
     if orig:
         o.clord_id, o.orig_clord_id = "root--2", "root--1"
@@ -198,7 +211,7 @@ def object_clauses(c, after, out):
     from asyncfix import FMsg
     from asyncfix.protocol.order_single import FIXNewOrderSingle
 
-    s, orig, entry, e, r = c
+    s, orig, entry, e, r = c[:5]
     if isinstance(out, str) and out.startswith("exc:"):
         yield (f"C16-object-foreign-exception:{entry}:{out[4:]}", "an entry point of the order object raised something other than the order error")
         return
